@@ -218,7 +218,7 @@ def _parse_tlc_out(out, res):
             res.coverage[key] = res.coverage.get(key, 0) + int(m.group(4))
 
 
-def tlc_trace(spec_name, trace_path, shards=8, timeout=900, cfg_name=None, extra_env=None):
+def tlc_trace(spec_name, trace_path, shards=8, timeout=900, cfg_name=None, extra_env=None, unit_start=None):
     """Validate an ndjson trace against <spec_name>.tla.  The trace is split at
     record boundaries into shards that run as parallel single-worker TLC
     processes (cases are independent).  Returns a TlcResult with every printed
@@ -230,14 +230,22 @@ def tlc_trace(spec_name, trace_path, shards=8, timeout=900, cfg_name=None, extra
         recs = f.readlines()
     if not recs:
         raise ToolError("empty trace")
-    shards = max(1, min(shards, len(recs)))
+    # units = groups of records that must stay together (a unit starts at a
+    # record containing `unit_start`, e.g. the "reset" event of a case)
+    units = []
+    for r in recs:
+        if unit_start is None or unit_start in r or not units:
+            units.append([r])
+        else:
+            units[-1].append(r)
+    shards = max(1, min(shards, len(units)))
     base = trace_path + ".shards"
     shutil.rmtree(base, ignore_errors=True)
     os.makedirs(base)
-    per = (len(recs) + shards - 1) // shards
+    per = (len(units) + shards - 1) // shards
     jobs = []
     for i in range(shards):
-        part = recs[i * per:(i + 1) * per]
+        part = [r for u in units[i * per:(i + 1) * per] for r in u]
         if not part:
             continue
         pth = os.path.join(base, f"s{i}.ndjson")
